@@ -1,9 +1,9 @@
 package arp
 
 import (
-	"context"
 	"net"
 
+	"github.com/google/gopacket/macs"
 	"github.com/v-byte-cpu/sx/pkg/scan"
 )
 
@@ -28,31 +28,33 @@ var c06ValidARP = []byte{
 	0x10, 0x11, 0x12, 0x13, 0x14, 0x15, 192, 168, 0, 3,
 }
 
-// VerifH_C06_arp: a valid reply, then an arbitrary frame of LEN bytes.
+// VerifH_C06_arp: a valid reply, then an arbitrary frame of LEN bytes (cap == len).
 func VerifH_C06_arp() {
 	n := verifParam("LEN", 14)
 	res := &c06Results{}
 	sm := NewScanMethod(nil, res)
-	_ = context.Background()
-	if verifParam("HIST", 1) == 1 {
-		a := append([]byte{}, c06ValidARP...)
-		err := sm.ProcessPacketData(a[:len(a):len(a)], nil)
-		verifAssert(err == nil && len(res.got) == 1, "valid ARP reply not reported")
-		res.got = nil
+	a := append([]byte{}, c06ValidARP...)
+	err := sm.ProcessPacketData(a[:len(a):len(a)], nil)
+	verifAssert(err == nil && len(res.got) == 1, "valid ARP reply not reported exactly once")
+	if len(res.got) == 1 {
+		r := res.got[0].(*ScanResult)
+		verifAssert(r.IP == "192.168.0.2" && r.MAC == "00:0c:29:04:05:06", "valid ARP reply reported with other fields")
 	}
+	res.got = nil
 	b := afFrame("B", n)
 	_ = sm.ProcessPacketData(b, nil)
 	verifAssert(len(res.got) <= 1, "more than one record for one frame")
-	if len(res.got) == 1 {
-		verifCover("record")
-		r := res.got[0].(*ScanResult)
-		wf := n >= 14+8 && b[12] == 0x08 && b[13] == 0x06 && b[14] == 0 && b[15] == 1 && b[16] == 0x08 && b[17] == 0 && b[18] == 6 && b[19] == 4 && n >= 14+28
-		verifAssert(wf, "record for a frame that is not Ethernet/IPv4 ARP with 6-byte hardware and 4-byte protocol addresses")
-		if wf {
-			verifAssert(r.IP == net.IP(b[28:32]).String(), "record address is not the sender address of this frame")
-			verifAssert(r.MAC == net.HardwareAddr(b[22:28]).String(), "record MAC is not the sender MAC of this frame")
-		}
-	} else {
+	if len(res.got) == 0 {
 		verifCover("no-record")
+		return
+	}
+	verifCover("record")
+	r := res.got[0].(*ScanResult)
+	wf := n >= 42 && b[12] == 0x08 && b[13] == 0x06 && b[15] == 1 && b[16] == 0x08 && b[17] == 0 && b[18] == 6 && b[19] == 4
+	verifAssert(wf, "record for a frame that is not Ethernet/IPv4 ARP with 6-byte hardware and 4-byte protocol addresses")
+	if wf {
+		verifAssert(r.IP == net.IP(b[28:32]).String(), "record address is not the sender address of this frame")
+		verifAssert(r.MAC == net.HardwareAddr(b[22:28]).String(), "record MAC is not the sender MAC of this frame")
+		verifAssert(r.Vendor == macs.ValidMACPrefixMap[[3]byte{b[22], b[23], b[24]}], "record vendor is not the vendor of this frame's sender MAC")
 	}
 }
